@@ -726,6 +726,7 @@ theorem fold_error_origin (n : Nat) : ∀ (t : Tree) (c : Ctx) (k : Nat), fold n
       simp only [hf, Except.error.injEq] at h; subst h
       exact ⟨[], key, ks, tpl, c, rfl, rfl, hf⟩
   | .leaf (.set key ks (.const l)), c, k, h => by simp [fold, foldElem, fmtUpdate] at h
+  | .leaf (.set key ks (.dictv d)), c, k, h => by simp [fold, foldElem, fmtUpdate] at h
   | .leaf .store, c, k, h => by simp [fold, foldElem] at h
   | .leaf .ucfs, c, k, h => by simp [fold, foldElem] at h
   | .leaf (.mkf _), c, k, h => by simp [fold, foldElem] at h
@@ -894,11 +895,15 @@ theorem kind_irrelevant (n : Nat) (kind kind' : Kind) (cs : List Tree) :
 
 /-- **the model's `==` is Python's `==`**: every context that the fold delivers to a node has `n` slots in
 every dictionary at every depth (`Val.WF`), so that the structural equality used by the transcribed
-`intersection` coincides with `dict.__eq__` on the dictionaries it stands for -/
-theorem delivered_wf (n : Nat) : ∀ (p : List Nat) (t : Tree) (c x : Ctx), WFD n c → ctxAt n t p c = some x → WFD n x
-  | [], t, c, x, h, hx => by simp only [ctxAt, Option.some.injEq] at hx; subst hx; exact h
-  | i :: p, .leaf e, c, x, _, hx => by simp [ctxAt] at hx
-  | i :: p, .seq kind cs, c, x, h, hx => by
+`intersection` coincides with `dict.__eq__` on the dictionaries it stands for (`hw`: the dictionary constants
+of the program are dictionaries over the alphabet — the driver builds them so and evaluates `valsWF` on every
+case; a program without dictionary constants satisfies it trivially) -/
+theorem delivered_wf (n : Nat) : ∀ (p : List Nat) (t : Tree) (c x : Ctx), t.valsWF n = true → WFD n c →
+    ctxAt n t p c = some x → WFD n x
+  | [], t, c, x, _, h, hx => by simp only [ctxAt, Option.some.injEq] at hx; subst hx; exact h
+  | i :: p, .leaf e, c, x, _, _, hx => by simp [ctxAt] at hx
+  | i :: p, .seq kind cs, c, x, hw, h, hx => by
+    have hw' : valsWFL n cs = true := by simpa [Tree.valsWF] using hw
     simp only [ctxAt] at hx
     cases hc : cs[i]? with
     | none => simp [hc] at hx
@@ -908,18 +913,95 @@ theorem delivered_wf (n : Nat) : ∀ (p : List Nat) (t : Tree) (c x : Ctx), WFD 
       | error e => simp [hf] at hx
       | ok c' =>
         simp only [hf] at hx
-        exact delivered_wf n p c0 c' x (foldL_wfd n _ c c' h hf) hx
-  | i :: p, .split bs, c, x, h, hx => by
+        exact delivered_wf n p c0 c' x (valsWFL_get n cs i c0 hw' hc)
+          (foldL_wfd n _ c c' (valsWFL_take n cs i hw') h hf) hx
+  | i :: p, .split bs, c, x, hw, h, hx => by
+    have hw' : valsWFL n bs = true := by simpa [Tree.valsWF] using hw
     simp only [ctxAt] at hx
     cases hc : bs[i]? with
     | none => simp [hc] at hx
     | some c0 =>
       simp only [hc, Option.bind_some] at hx
-      exact delivered_wf n p c0 c x h hx
+      exact delivered_wf n p c0 c x (valsWFL_get n bs i c0 hw' hc) h hx
 
 /-- … and so has every context a node exports -/
-theorem exported_wf (n : Nat) (t : Tree) (c x : Ctx) (hc : WFD n c) (h : fold n t c = .ok x) : WFD n x :=
-  fold_wfd n t c x hc h
+theorem exported_wf (n : Nat) (t : Tree) (c x : Ctx) (hw : t.valsWF n = true) (hc : WFD n c)
+    (h : fold n t c = .ok x) : WFD n x :=
+  fold_wfd n t c x hw hc h
+
+/-! ## a subcontext given at once (`SetContext("data", {"detector": "far"})`) is MERGED, never substituted
+
+Sentence 1 of the property: the static context is the fold of the `SetContext` UPDATES — an update is
+`update_recursively`, also when the value is a dictionary.  All theorems above quantify over every `SVal`, the
+dictionary constants included; the ones below say what the update with a dictionary constant is. -/
+
+/-- `str_to_dict` nests: a dictionary with one entry below a key is the dotted key -/
+theorem singleV_nest (n : Nat) : ∀ (ks : List Nat) (k k' : Nat) (ks' : List Nat) (v : V),
+    singleV n k ks (.dict (singleV n k' ks' v)) = singleV n k (ks ++ k' :: ks') v
+  | [], k, k', ks', v => by simp [singleV]
+  | k1 :: ks, k, k', ks', v => by simp [singleV, singleV_nest n ks k1 k' ks' v]
+
+/-- **`SetContext("k.ks", {"k'.ks'": l})` is `SetContext("k.ks.k'.ks'", l)`**, for every context it is applied to:
+a dot-less (or shorter) key with a one-entry dictionary addresses the same subtree as the dotted key -/
+theorem set_dict_is_dotted_key (n k : Nat) (ks : List Nat) (k' : Nat) (ks' : List Nat) (l : Leaf) (c : Ctx) :
+    fmtUpdate n k ks (.dictv (single n k' ks' l)) c = fmtUpdate n k (ks ++ k' :: ks') (.const l) c := by
+  simp only [fmtUpdate, single_eq_singleV, singleV_nest]
+
+/-- … and the same for a dictionary nested in the dictionary -/
+theorem set_dict_nest (n k : Nat) (ks : List Nat) (k' : Nat) (ks' : List Nat) (y c : Ctx) :
+    fmtUpdate n k ks (.dictv (singleV n k' ks' (.dict y))) c = fmtUpdate n k (ks ++ k' :: ks') (.dictv y) c := by
+  simp only [fmtUpdate, singleV_nest]
+
+theorem getSlot_singleV_ne (n k : Nat) (ks : List Nat) (v : V) (i : Nat) (h : i ≠ k) :
+    getSlot (singleV n k ks v) i = none := by
+  cases ks <;> simp only [singleV] <;> rw [getSlot_map_range] <;> simp [h]
+
+/-- **a dictionary value is merged into the subcontext that exists at its key**: if the context holds the
+dictionary `x` at the path `k.ks`, then after `SetContext("k.ks", y)` it holds `update_recursively(x, y)` there -/
+theorem set_dict_merges (n : Nat) : ∀ (ks : List Nat) (k : Nat) (y c x : Ctx), k < n → (∀ j ∈ ks, j < n) →
+    descend c (k :: ks) = some x → descend (updL c (singleV n k ks (.dict y))) (k :: ks) = some (updL x y)
+  | [], k, y, c, x, hk, _, hx => by
+    simp only [descend] at hx ⊢
+    rw [getSlot_updL]
+    cases hs : getSlot c k with
+    | none => simp [hs] at hx
+    | some v =>
+      cases v with
+      | leaf a => simp [hs] at hx
+      | dict d =>
+        simp only [hs, Option.some.injEq] at hx; subst hx
+        simp only [singleV]; rw [getSlot_map_range]
+        simp [hk, updO, updV]
+  | k1 :: r, k, y, c, x, hk, hks, hx => by
+    simp only [descend] at hx
+    cases hs : getSlot c k with
+    | none => simp [hs] at hx
+    | some v =>
+      cases v with
+      | leaf a => simp [hs] at hx
+      | dict d =>
+        simp only [hs] at hx
+        have ih := set_dict_merges n r k1 y d x (hks k1 (by simp)) (fun j hj => hks j (by simp [hj])) hx
+        have hg : getSlot (updL c (singleV n k (k1 :: r) (.dict y))) k =
+            some (.dict (updL d (singleV n k1 r (.dict y)))) := by
+          rw [getSlot_updL, hs]
+          simp only [singleV]; rw [getSlot_map_range]
+          simp [hk, updO, updV]
+        rw [descend, hg]
+        exact ih
+
+/-- **what an earlier `SetContext` put below the key survives a later dictionary value that does not mention it**
+(the sentence "the static context is the fold of the SetContext updates" for `SetContext("data.cycle", 1) …
+SetContext("data", {"detector": "far"})`): the element after `SetContext("k.ks", y)` sees at `k.ks` the recursive
+update of what was there, every entry `j` that `y` does not have is the one that was there, and every other
+top-level key is untouched -/
+theorem set_dict_keeps_earlier (n : Nat) (ks : List Nat) (k : Nat) (y c x : Ctx) (hk : k < n) (hks : ∀ j ∈ ks, j < n)
+    (hx : descend c (k :: ks) = some x) :
+    ∃ c', fold n (.leaf (.set k ks (.dictv y))) c = .ok c' ∧ descend c' (k :: ks) = some (updL x y) ∧
+      (∀ j, getSlot y j = none → getSlot (updL x y) j = getSlot x j) ∧
+      (∀ i, i ≠ k → getSlot c' i = getSlot c i) :=
+  ⟨_, rfl, set_dict_merges n ks k y c x hk hks hx, fun j hj => getSlot_updL_of_none y x j hj,
+    fun i hi => getSlot_updL_of_none _ c i (getSlot_singleV_ne n k ks _ i hi)⟩
 
 /-! ## non-vacuity: concrete instances of the hypotheses (alphabet `a = 0`, `b = 1`) -/
 section examples
@@ -990,6 +1072,35 @@ example : tokAt (.split [.seq .sequence [.leaf .store], .seq .sequence [.leaf .s
 example : leL (Val.empty 2) [some (.leaf (.int 1)), none] := by simp [leL, leO, Val.empty, List.replicate]
 -- hypothesis of `delivered_wf` / `exported_wf`
 example : WFD 2 (Val.empty 2 : Ctx) := wfd_empty 2
+example : ex1.valsWF 2 = true := rfl
+
+/-- `Sequence(SetContext("data.cycle", 1), StoreContext(), SetContext("data", {"detector": "far"}), StoreContext(),
+Write("o_{{data.cycle}}_{{data.detector}}"))`, keys `cycle = 0`, `data = 1`, `detector = 2` -/
+private def ex4 : Tree :=
+  .seq .sequence [.leaf (.set 1 [0] (.const (.int 1))), .leaf .store,
+    .leaf (.set 1 [] (.dictv [none, none, some (.leaf (.str "far"))])), .leaf .store,
+    .leaf (.write { head := "o_", parts := [([1, 0], "_"), ([1, 2], "")] })]
+-- hypotheses of `set_dict_merges` / `set_dict_keeps_earlier`: the context before the dictionary value has a
+-- subcontext at `data`, and the value does not mention `cycle`
+example : descend [none, some (.dict [some (.leaf (.int 1)), none, none]), none] [1] =
+    some [some (.leaf (.int 1)), none, none] := rfl
+example : getSlot ([none, none, some (.leaf (.str "far"))] : Ctx) 0 = none := rfl
+example : ex4.valsWF 3 = true := rfl
+-- … and the conclusion on the instance, computed by the transcribed protocol: the second store sees the merged
+-- subcontext {data: {cycle: 1, detector: "far"}}, the first one what preceded it, the Write derives its name from both
+example : (build 3 ex4).at? [1] = some (.store [none, some (.dict [some (.leaf (.int 1)), none, none]), none]) := rfl
+example : (build 3 ex4).at? [3] =
+    some (.store [none, some (.dict [some (.leaf (.int 1)), none, some (.leaf (.str "far"))]), none]) := rfl
+example : (build 3 ex4).at? [4] =
+    some (.write { head := "o_", parts := [([1, 0], "_"), ([1, 2], "")] } (some (.str "o_1_far"))) := rfl
+-- `set_dict_is_dotted_key` on the instance: {"detector": "far"} below `data` is the key `data.detector`
+example : fmtUpdate 3 1 [] (.dictv (single 3 2 [] (.str "far"))) (Val.empty 3) =
+    fmtUpdate 3 1 [2] (.const (.str "far")) (Val.empty 3) := set_dict_is_dotted_key 3 1 [] 2 [] _ _
+-- an EMPTY dictionary value creates the key where there is none, replaces a scalar and leaves a subcontext alone
+example : fmtUpdate 2 0 [] (.dictv [none, none]) (Val.empty 2) = .ok [some (.dict [none, none]), none] := rfl
+example : fmtUpdate 2 0 [] (.dictv [none, none]) [some (.leaf (.int 1)), none] = .ok [some (.dict [none, none]), none] := rfl
+example : fmtUpdate 2 0 [] (.dictv [none, none]) [some (.dict [none, some (.leaf (.int 1))]), none] =
+    .ok [some (.dict [none, some (.leaf (.int 1))]), none] := rfl
 
 /-- `Sequence(SetContext("b", "{{a}}_f"), StoreContext(), Write("o_{{b}}"))`, keys `a = 0`, `b = 1` -/
 private def ex3 : Tree :=
